@@ -2,6 +2,7 @@ from typing import Callable, Awaitable, Coroutine, Set
 import asyncio
 
 from .base_runner import BaseRunner, OrphanedReturn
+from ..debug import NameRepr
 
 
 class AsyncioRunner(BaseRunner):
@@ -22,6 +23,7 @@ class AsyncioRunner(BaseRunner):
         super().__init__(asyncio_loop)
         self._tasks: Set[asyncio.Task] = set()
         self._payload_failure = asyncio_loop.create_future()
+        self._closing = False
 
     def register_payload(self, payload: Callable[[], Awaitable]):
         self.asyncio_loop.call_soon_threadsafe(self._setup_payload, payload)
@@ -39,6 +41,12 @@ class AsyncioRunner(BaseRunner):
         return await payload()
 
     def _setup_payload(self, payload: Callable[[], Awaitable]):
+        if self._closing:
+            # closing waits for all tasks: a steady stream of new ones would stall it
+            self._logger.warning(
+                "discarding payload %s during shutdown", NameRepr(payload)
+            )
+            return
         task = self.asyncio_loop.create_task(self._monitor_payload(payload))
         self._tasks.add(task)
 
@@ -63,6 +71,7 @@ class AsyncioRunner(BaseRunner):
     async def aclose(self):
         if self._stopped.is_set() and not self._tasks:
             return
+        self._closing = True
         # let the manage task wake up and exit
         if not self._payload_failure.done():
             self._payload_failure.set_result(None)
